@@ -72,7 +72,10 @@ func loadProgram(repo string, whole bool, needSSA bool) (*Program, error) {
 		env = append(env, kv)
 	}
 	env = append(env,
-		"GOFLAGS=-mod=mod -modfile="+filepath.Join(tmp, "go.mod"),
+		// -trimpath: the export data of irismod's own packages is then cached by content, not
+		// by directory - scratch copies (thorough tier, selftest) reuse the cache instead of
+		// adding several GB of build cache per run
+		"GOFLAGS=-mod=mod -trimpath -modfile="+filepath.Join(tmp, "go.mod"),
 		"GOWORK=off", "GOPROXY=off", "GOSUMDB=off", "GOTOOLCHAIN=local")
 	mode := packages.NeedName | packages.NeedFiles | packages.NeedCompiledGoFiles |
 		packages.NeedImports | packages.NeedDeps | packages.NeedTypes | packages.NeedTypesSizes |
